@@ -28,7 +28,7 @@ func withLab(cfg world.Config, f func(e *fw.Env, l *Lab)) func(e *fw.Env) {
 	return func(e *fw.Env) {
 		l, err := NewLab(cfg)
 		if err != nil {
-			e.Res.Inconc("world construction failed: %v", err)
+			e.Res.Fatal("world construction failed: %v", err)
 			return
 		}
 		e.Res.Notes["calibrated_destinations"] = itoa(len(l.Dests))
@@ -90,7 +90,7 @@ func init() {
 		Run:         withLab(world.Config{}, CheckC20),
 	})
 	register(&Def{
-		ID: "C19", Level: "exploration", MinSigs: 20,
+		ID: "C19", Level: "exploration", MinSigs: 10,
 		Rule:        "per shard one history of 60 (thorough 400) blocks is recorded as raw transaction bytes + counterparty packet commitments: orbiter packets carrying the mutated-memo corpus of C14/C15 (error acknowledgements of every class), hostile attributes and packet data, successful transfers, admin messages (valid/invalid/unauthorized), deposits; it is replayed on a reference world, 2 sequential fresh worlds, 3-4 worlds on parallel goroutines and 2-3 fresh processes (fresh map seeds, ASLR); every replay must equal the reference byte for byte in acknowledgement bytes, tx code/codespace/data, ordered events, gas, every block's AppHash, the exported orbiter state, the bank store digest and the decoded map-valued queries. The race-detector build runs the parallel part (see race_reports). non-trivial = every replay comparison; distinct = error-acknowledgement text classes (digits stripped) present in the stream and replay instances",
 		Assumptions: append([]string{"nondeterminism that needs a different machine, architecture or Go version is out of reach", "tx logs (not committed, not in the statement) are compared separately and only counted"}, commonAssumptions...),
 		Run:         func(e *fw.Env) { CheckC19(e, nil) },
